@@ -398,7 +398,7 @@ Proof.
     { unfold parse_color. destruct (assocT (py_lower (35 :: h)) named_colors); [eauto|]. rewrite X. eauto. }
     destruct P as (c' & P). destruct K as [->| ->]; unfold accepts, decode, dec_color; rewrite P; reflexivity.
   - assert (D : color_ok (35 :: h) = true).
-    { unfold color_ok. apply orb_true_iff. left. apply orb_true_iff. left. apply orb_true_iff. right.
+    { unfold color_ok, color_form. apply orb_true_iff. left. apply orb_true_iff. left. apply orb_true_iff. right.
       rewrite H. destruct L as [-> | ->]; reflexivity. }
     destruct K as [->| ->]; exact D.
 Qed.
@@ -428,3 +428,138 @@ Proof.
   - cbn [documented]. unfold fonts_ok. cbn [fonts_scan]. rewrite A4, A5, A6, A1.
     apply (fonts_unq_letters (b :: r)). cbn [forallb]. rewrite Lb, Lr. reflexivity.
 Qed.
+
+(* ------------------------------------------------------------------ every documented colour is accepted *)
+Lemma strip_pre_app p s r : strip_pre p s = Some r -> s = p ++ r.
+Proof.
+  revert s; induction p as [|a p IH]; intros s H; cbn [strip_pre] in H.
+  - inversion H; reflexivity.
+  - destruct s as [|b s]; [discriminate|]. destruct (a =? b) eqn:E; [|discriminate].
+    apply Z.eqb_eq in E. subst b. cbn [app]. f_equal. apply IH. exact H.
+Qed.
+Lemma strip_last_app c s m : strip_last c s = Some m -> s = m ++ [c].
+Proof.
+  unfold strip_last. destruct (rev s) as [|l t] eqn:R; [discriminate|]. destruct (l =? c) eqn:E; [|discriminate].
+  intro H. inversion H; subst. apply Z.eqb_eq in E. subst l.
+  rewrite <- (rev_involutive s), R. reflexivity.
+Qed.
+Lemma strip_prefix_app p r : strip_prefix p (p ++ r) = Some r.
+Proof. induction p as [|a p IH]; [destruct r; reflexivity|]. cbn [app strip_prefix]. rewrite Z.eqb_refl. exact IH. Qed.
+
+Lemma re_digit_ascii c : digit c = true -> is_re_digit c = true.
+Proof.
+  intro D. unfold is_re_digit, dec_digit, dec_zeros. cbn [digit_in]. change (48 + 9) with 57.
+  unfold digit in D. rewrite D. reflexivity.
+Qed.
+Lemma re_space_digit c : digit c = true -> is_re_space c = false.
+Proof. intro D. destruct (digit_cases _ D) as [->|[->|[->|[->|[->|[->|[->|[->|[->| ->]]]]]]]]]; reflexivity. Qed.
+Definition sep_char (c : Z) : Prop := c = 44 \/ c = 41.
+Lemma sep_props c : sep_char c -> is_re_digit c = false /\ is_re_space c = false.
+Proof. intros [-> | ->]; split; reflexivity. Qed.
+Lemma span_digits d c rest : forallb digit d = true -> is_re_digit c = false -> span is_re_digit (d ++ c :: rest) = (d, c :: rest).
+Proof.
+  intros D N. induction d as [|x d IH]; cbn [app span].
+  - rewrite N. reflexivity.
+  - cbn [forallb] in D. apply andb_true_iff in D as [Dx Dd]. rewrite (re_digit_ascii _ Dx), (IH Dd). reflexivity.
+Qed.
+Lemma digits1_ok d c rest : all_digits d = true -> sep_char c -> digits1 (d ++ c :: rest) = Some (d, c :: rest).
+Proof.
+  intros D S. destruct (sep_props _ S) as [N _]. unfold all_digits in D. destruct d as [|x d]; [discriminate|].
+  unfold digits1. rewrite (span_digits _ _ _ D N). reflexivity.
+Qed.
+Lemma skip_at_digits d rest : all_digits d = true -> skip is_re_space (d ++ rest) = d ++ rest.
+Proof.
+  unfold all_digits. destruct d as [|x d]; [discriminate|]. cbn [forallb app skip]. intro D. apply andb_true_iff in D as [Dx _].
+  rewrite (re_space_digit _ Dx). reflexivity.
+Qed.
+Lemma sp_digits_sp_ok d c rest : all_digits d = true -> sep_char c -> sp_digits_sp (d ++ c :: rest) = Some (d, c :: rest).
+Proof.
+  intros D S. unfold sp_digits_sp. rewrite (skip_at_digits _ _ D), (digits1_ok _ _ _ D S). cbn [obind fst snd skip].
+  destruct (sep_props _ S) as [_ N]. rewrite N. reflexivity.
+Qed.
+Lemma component_digits x : component_ok x = true -> all_digits x = true.
+Proof. unfold component_ok. intro H. apply andb_true_iff in H as [H _]. exact H. Qed.
+Lemma int_of_component x n : all_digits x = true -> Z.of_nat (length x) <= n -> (n <=? 4300) = true -> py_int_of_text x = Ok (dval x).
+Proof.
+  unfold all_digits. destruct x as [|c x]; [discriminate|]. intros D L N. apply py_int_digits; [exact D|discriminate|lia].
+Qed.
+
+Lemma accepts_color_parse k s : (k = KColor \/ k = KBgColor) -> is_ok (parse_color s) = true -> accepts k (JStr s) = true.
+Proof. intros [->| ->] H; unfold accepts, decode, dec_color; destruct (parse_color s); try discriminate H; reflexivity. Qed.
+
+Lemma rgb_accepted body : (Z.of_nat (length body) <=? 4290) = true ->
+  match fields 44 body with [r; g; b] => forallb component_ok [r; g; b] | _ => false end = true ->
+  is_ok (parse_color (T "rgb(" ++ body ++ [41])) = true.
+Proof.
+  intros Len H. pose proof (fields_join 44 body) as J.
+  destruct (fields 44 body) as [|r [|g [|b [|]]]]; try discriminate H.
+  cbn [forallb] in H. apply andb_true_iff in H as [Hr H]. apply andb_true_iff in H as [Hg H]. apply andb_true_iff in H as [Hb _].
+  apply component_digits in Hr, Hg, Hb. cbn [join] in J. subst body.
+  assert (Lr : Z.of_nat (length r) <= Z.of_nat (length (r ++ 44 :: g ++ 44 :: b))) by (repeat (rewrite app_length; cbn [length]); lia).
+  assert (Lg : Z.of_nat (length g) <= Z.of_nat (length (r ++ 44 :: g ++ 44 :: b))) by (repeat (rewrite app_length; cbn [length]); lia).
+  assert (Lb : Z.of_nat (length b) <= Z.of_nat (length (r ++ 44 :: g ++ 44 :: b))) by (repeat (rewrite app_length; cbn [length]); lia).
+  assert (N : (Z.of_nat (length (r ++ 44 :: g ++ 44 :: b)) <=? 4300) = true) by lia.
+  unfold parse_color. destruct (assocT _ named_colors); [reflexivity|].
+  change (T "rgb(") with [114; 103; 98; 40]. cbn [app match_hex].
+  assert (M : match_rgb (114 :: 103 :: 98 :: 40 :: (r ++ 44 :: g ++ 44 :: b) ++ [41]) = Some (r, g, b)).
+  { unfold match_rgb. change (T "rgb(") with [114; 103; 98; 40]. cbn [strip_prefix Z.eqb Pos.eqb obind].
+    rewrite <- !app_assoc. cbn [app].
+    rewrite (sp_digits_sp_ok r 44 _ Hr (or_introl eq_refl)). cbn [obind fst snd strip_prefix Z.eqb Pos.eqb].
+    rewrite <- !app_assoc. cbn [app].
+    rewrite (sp_digits_sp_ok g 44 _ Hg (or_introl eq_refl)). cbn [obind fst snd strip_prefix Z.eqb Pos.eqb].
+    rewrite (sp_digits_sp_ok b 41 _ Hb (or_intror eq_refl)). cbn [obind fst snd strip_prefix Z.eqb Pos.eqb]. reflexivity. }
+  rewrite M. rewrite (int_of_component r _ Hr Lr N), (int_of_component g _ Hg Lg N), (int_of_component b _ Hb Lb N). reflexivity.
+Qed.
+Lemma rgba_accepted body : (Z.of_nat (length body) <=? 4290) = true ->
+  match fields 44 body with [r; g; b; a] => forallb component_ok [r; g; b; a] | _ => false end = true ->
+  is_ok (parse_color (T "rgba(" ++ body ++ [41])) = true.
+Proof.
+  intros Len H. pose proof (fields_join 44 body) as J.
+  destruct (fields 44 body) as [|r [|g [|b [|a [|]]]]]; try discriminate H.
+  cbn [forallb] in H. apply andb_true_iff in H as [Hr H]. apply andb_true_iff in H as [Hg H]. apply andb_true_iff in H as [Hb H].
+  apply andb_true_iff in H as [Ha _].
+  apply component_digits in Hr, Hg, Hb, Ha. cbn [join] in J. subst body.
+  assert (Lr : Z.of_nat (length r) <= Z.of_nat (length (r ++ 44 :: g ++ 44 :: b ++ 44 :: a))) by (repeat (rewrite app_length; cbn [length]); lia).
+  assert (Lg : Z.of_nat (length g) <= Z.of_nat (length (r ++ 44 :: g ++ 44 :: b ++ 44 :: a))) by (repeat (rewrite app_length; cbn [length]); lia).
+  assert (Lb : Z.of_nat (length b) <= Z.of_nat (length (r ++ 44 :: g ++ 44 :: b ++ 44 :: a))) by (repeat (rewrite app_length; cbn [length]); lia).
+  assert (La : Z.of_nat (length a) <= Z.of_nat (length (r ++ 44 :: g ++ 44 :: b ++ 44 :: a))) by (repeat (rewrite app_length; cbn [length]); lia).
+  assert (N : (Z.of_nat (length (r ++ 44 :: g ++ 44 :: b ++ 44 :: a)) <=? 4300) = true) by lia.
+  unfold parse_color. destruct (assocT _ named_colors); [reflexivity|].
+  change (T "rgba(") with [114; 103; 98; 97; 40]. cbn [app match_hex].
+  assert (M0 : match_rgb (114 :: 103 :: 98 :: 97 :: 40 :: (r ++ 44 :: g ++ 44 :: b ++ 44 :: a) ++ [41]) = None).
+  { unfold match_rgb. change (T "rgb(") with [114; 103; 98; 40]. reflexivity. }
+  assert (M : match_rgba (114 :: 103 :: 98 :: 97 :: 40 :: (r ++ 44 :: g ++ 44 :: b ++ 44 :: a) ++ [41]) = Some (r, g, b, a)).
+  { unfold match_rgba. change (T "rgba(") with [114; 103; 98; 97; 40]. cbn [strip_prefix Z.eqb Pos.eqb obind].
+    rewrite <- !app_assoc. cbn [app].
+    rewrite (skip_at_digits _ _ Hr), (digits1_ok r 44 _ Hr (or_introl eq_refl)). cbn [obind fst snd strip_prefix Z.eqb Pos.eqb].
+    rewrite <- !app_assoc. cbn [app].
+    rewrite (sp_digits_sp_ok g 44 _ Hg (or_introl eq_refl)). cbn [obind fst snd strip_prefix Z.eqb Pos.eqb].
+    rewrite <- !app_assoc. cbn [app].
+    rewrite (sp_digits_sp_ok b 44 _ Hb (or_introl eq_refl)). cbn [obind fst snd strip_prefix Z.eqb Pos.eqb].
+    rewrite (sp_digits_sp_ok a 41 _ Ha (or_intror eq_refl)). cbn [obind fst snd strip_prefix Z.eqb Pos.eqb]. reflexivity. }
+  rewrite M0, M.
+  rewrite (int_of_component r _ Hr Lr N), (int_of_component g _ Hg Lg N), (int_of_component b _ Hb Lb N), (int_of_component a _ Ha La N).
+  reflexivity.
+Qed.
+
+Theorem color_complete k s :
+  (k = KColor \/ k = KBgColor) -> (Z.of_nat (length s) <=? 4290) = true -> color_ok s = true -> accepts k (JStr s) = true.
+Proof.
+  intros K Len H. unfold color_ok, color_form in H. apply orb_true_iff in H as [H|H]; [apply orb_true_iff in H as [H|H]; [apply orb_true_iff in H as [H|H]|]|].
+  - exact (color_named_accepted k s K H).
+  - destruct s as [|c h]; [discriminate|]. destruct (c =? 35) eqn:C.
+    + apply Z.eqb_eq in C. subst c. apply andb_true_iff in H as [Hx Hl].
+      apply (color_hex_accepted k h K Hx). apply orb_true_iff in Hl as [L|L]; apply Z.eqb_eq in L; lia.
+    + destruct c as [|c|c]; try discriminate H. repeat (destruct c as [c|c|]; try discriminate H). discriminate C.
+  - apply accepts_color_parse; [exact K|]. unfold strip_both in H.
+    destruct (strip_pre (T "rgb(") s) as [r|] eqn:P; [|discriminate]. destruct (strip_last 41 r) as [body|] eqn:Q; [|discriminate].
+    apply strip_pre_app in P. apply strip_last_app in Q. subst r s. apply rgb_accepted; [|exact H].
+    rewrite !app_length in Len. lia.
+  - apply accepts_color_parse; [exact K|]. unfold strip_both in H.
+    destruct (strip_pre (T "rgba(") s) as [r|] eqn:P; [|discriminate]. destruct (strip_last 41 r) as [body|] eqn:Q; [|discriminate].
+    apply strip_pre_app in P. apply strip_last_app in Q. subst r s. apply rgba_accepted; [|exact H].
+    rewrite !app_length in Len. lia.
+Qed.
+Theorem color_complete_documented k s :
+  (k = KColor \/ k = KBgColor) -> (Z.of_nat (length s) <=? 4290) = true -> documented k (JStr s) = true -> accepts k (JStr s) = true.
+Proof. intros K L D. apply (color_complete k s K L). destruct K as [->| ->]; exact D. Qed.
